@@ -267,3 +267,16 @@ package schemabuilder
 //@   call Connection.setCursors assert npage == 1
 //@   call Connection.setCursors ghost ncursor = ncursor + 1
 //@   ensures err == nil && built ==> npage == 1 && ncursor == 1
+
+// ---- C15 / C11 (user code called from pagination): sort and filter functions are user code, and some of them run on
+// goroutines of their own, outside the recover of the field that is being resolved; they are only ever entered through the
+// recovering wrappers - with the field, the node(s) and the arguments of this very call - never called directly.
+// (The filter-type functions of a custom filter are called directly by checkFilters and the batch filter closure; a panic
+// in one of those, on a goroutine of the expensive or batched filter path, is not contained - noted in DESIGN.md.)
+//@ func getSortReference
+//@   nocall dynamic
+//@   call SafeExecuteResolver assert arg1 == sortField && arg2 == node && arg3 == userArgs
+//@ func connectionContext.checkFilters
+//@   call SafeExecuteResolver assert arg1 == filterField && arg2 == node && arg3 == userArgs
+//@ func connectionContext.applyBatchTextFilter$1
+//@   call SafeExecuteBatchResolver assert arg1 == filterField && arg2 == nodes && arg3 == userArgs
